@@ -35,7 +35,7 @@ Proof. intros [A B C D E] H1 H2 H3 H4 H5. constructor; rewrite ?H1, ?H2, ?H3, ?H
 Lemma record_mmap_pfields s b : let s' := record_mmap s b in
   plog s' = plog s /\ losts s' = losts s /\ curr s' = curr s /\ nbuf s' = nbuf s /\ pdone s' = pdone s.
 Proof.
-  unfold record_mmap, copy_to_buffer. destruct (_ && _); [|repeat split]. destruct (give b (ws s)); repeat split.
+  unfold record_mmap, copy_to_buffer. destruct (_ && _); [|repeat split]. destruct (give b (ws s)); [|destruct (stopped s)]; repeat split.
 Qed.
 Definition is_rec_label (l : label) : bool :=
   match l with P_start _ | P_emit _ _ _ _ | P_addlost _ _ | P_finish _ => false | _ => true end.
@@ -47,7 +47,8 @@ Proof.
       injection H as <-; try (repeat split; fail).
     destruct (record_mmap_pfields (set_shl (set_chan s r) (remove_first b (shl s))) b) as (F1 & F2 & F3 & F4 & F5).
     repeat split; assumption.
-  - apply w_pick_spec in H. destruct H as (_ & wr & _ & _ & [[_ ->]|(b & rest & _ & ->)]); repeat split.
+  - apply w_pick_spec in H. destruct H as (s0 & Ek & _ & wr & _ & _ & H).
+    destruct (take_kick_spec s s0 Ek) as [[->|(k & ->)] _]; destruct H as [[_ ->]|(b & rest & _ & ->)]; repeat split.
   - apply w_write_spec in H. destruct H as (_ & wr & t0 & b & rest & _ & _ & _ & _ & ->). repeat split.
   - apply w_release_spec in H. destruct H as (_ & wr & t0 & b & rest & _ & _ & _ & _ & ->). repeat split.
   - apply w_splice_spec in H. destruct H as (_ & wr & t0 & _ & _ & _ & ->). repeat split.
